@@ -92,10 +92,12 @@ def main():
     W = a.workers or (8 if tier == "quick" else 16)
     W = max(1, min(W, N))
     deadline = float(os.environ.get("VERIF_DEADLINE", "150" if tier == "quick" else "1500"))
-    outdir = os.path.join(VERIF, "out", prop)
+    outbase = os.environ.get("VERIF_OUTDIR", os.path.join(VERIF, "out"))
+    evdir = os.environ.get("VERIF_EVIDENCE_DIR", os.path.join(VERIF, "evidence"))
+    outdir = os.path.join(outbase, prop)
     shutil.rmtree(outdir, ignore_errors=True)
     os.makedirs(outdir, exist_ok=True)
-    os.makedirs(os.path.join(VERIF, "evidence"), exist_ok=True)
+    os.makedirs(evdir, exist_ok=True)
     t0 = time.time()
     env = worker_env()
     procs = []
@@ -221,7 +223,7 @@ def main():
     ev = dict(property_id=prop, tier=tier, seed=seed, level=meta.LEVEL.get(prop, "exploration"), coverage=cov,
               assumptions=meta.ASSUMPTIONS.get(prop, []) + meta.COMMON_ASSUMPTIONS,
               wall_s=round(wall, 2), violations=len(unknown))
-    json.dump(ev, open(os.path.join(VERIF, "evidence", prop + ".json"), "w"), indent=1, default=str)
+    json.dump(ev, open(os.path.join(evdir, prop + ".json"), "w"), indent=1, default=str)
     # ---- report
     print("%s tier=%s seed=%d: %d cases (%d distinct non-trivial), %d aborted, %.1fs" % (
         prop, tier, seed, cases, len(hashes_nt), aborted, wall))
